@@ -27,7 +27,8 @@ VARIABLES ns, alias, prog, expect, nimp, nref, nsec, phase, done
 vars == <<ns, alias, prog, expect, nimp, nref, nsec, phase, done>>
 
 Lower(s) == CASE s = "A" -> "a" [] s = "B" -> "b" [] s = "C" -> "c" [] s = "F" -> "f" [] s = "X" -> "x" [] s = "P" -> "p" [] s = "Q" -> "q"
-              [] s = "Self" -> "self" [] s = "INT" -> "int" [] s = "TRUE" -> "true" [] OTHER -> s
+              [] s = "Self" -> "self" [] s = "INT" -> "int" [] s = "TRUE" -> "true"
+              [] s = "Functionf" -> "functionf" [] s = "ConstC" -> "constc" [] s = "constC" -> "constc" [] OTHER -> s
 
 Key(k, name) == IF k = "const" THEN name ELSE Lower(name)         \* constant aliases are case-sensitive
 EmptyAlias == [class |-> <<>>, function |-> <<>>, const |-> <<>>]
